@@ -207,3 +207,6 @@ func Sleep(d time.Duration) { time.Sleep(d) }
 
 // Yield is a plain scheduling point for harness polling loops.
 func Yield() { vsched.Yield() }
+
+// NextTimer is the virtual time of the earliest pending timer.
+func NextTimer() (time.Duration, bool) { return vsched.NextTimer() }
